@@ -163,6 +163,11 @@ def run_scenario(scn, root, rng=None, ops=None, max_ops=40, fair_from=None):
     Returns (ops_executed, [Obs])."""
     S.install()
     g = S.build_graph(scn, root)
+    # the order in which the status table lists the instances (`status_subtree`), for the first line
+    try:
+        S.WORLD.status_order = ",".join(str(S.sidx(k)) for k in g.status_subtree)
+    except RecursionError:
+        S.WORLD.status_order = "X"
     n = scn["n"]
     via = scn.get("via")
     if via:
@@ -287,7 +292,7 @@ def model_lines(scn, ops):
 
 
 def impl_lines(trace):
-    out = ["ok"]
+    out = ["ok order=%s" % getattr(S.WORLD, "status_order", "")]
     for o in trace:
         if o.ret == "NONTERMINATION":
             continue
